@@ -22,3 +22,13 @@ claim("C10", "model_checking", "TLA+ implementation spec refines contract (TLC) 
       "Trusted: TLC, the harness's projection of linear memory (list walks, canaries over the requested bytes), wazero as executor of the "
       "allocator. Bounded: sizes/configurations of the cfgs; recorded traces up to 2*10^4 events per run.",
       "DESIGN.md section 4 C10")
+
+claim("C13", "model_checking", "TLA+ transcription of map.wa refines the finite-map contract (TLC) + every model transition and simulated long histories rendered as Wa programs and run by the real toolchain",
+      "WaMap.tla transcribes waroot/src/runtime/map.wa (red-black tree + nodes slice) statement by statement; TLC checks that it refines "
+      "FiniteMap.tla (lookup/comma-ok, len, range as a set of pairs) plus red-black and index invariants at bounded keys/values/operations. "
+      "Every transition of the emitted bound, and TLC-simulated histories of 60-120 operations over 7 keys, are compiled into Wa programs for "
+      "nine key kinds (int, i64, u8, string, f64, bool, struct, pointer, interface{} of mixed dynamic types) and executed with the real `wa run`; "
+      "the observations must equal the contract's. The spec's prediction of the range order is compared too but only reported as drift.",
+      "Trusted: TLC, the program renderer (operations interpreted from a byte string by a small Wa loop, so map operations use variable keys), "
+      "`wa run` as executor. Not decided: NaN keys, mutation during range, maps of maps.",
+      "DESIGN.md section 4 C13")
